@@ -241,14 +241,41 @@ theorem addr_step {s s' : St} {e : Step} (he : EntryInv s) (h : AddrInv s) (hs :
   ⟨addr_step_chan he h hs, addr_step_hold he h hs, addr_step_route he h hs, addr_step_exit he h hs,
    addr_step_out he h hs, addr_step_fresh he h hs⟩
 
-/-! ### invariant 4: reply pids are the results of distinct allocations of the node's allocator -/
+/-! ### invariant 4: reply pids are the results of distinct allocations of the node's allocator
+
+`Node::start` changes the creation the allocator stamps on new pids (`set_creation`) and nothing else, so the allocator
+of the node is, up to that field, the `n`-th state of the row of sequential allocations from its first state, and the
+`(id, serial)` of every pid it has issued is the `(id, serial)` of the corresponding element of that row. -/
+
+/-- the allocator state without the creation -/
+def core (a : Sh) : Sh := { a with creation := 0 }
+
+@[simp] theorem core_setCreation (a : Sh) (c : Nat) : core (a.setCreation c) = core a := rfl
+
+/-- `r` is a successful allocation with the `(id, serial)` of `k` -/
+def SameKey (r : Res) (k : Pid) : Prop := ∃ p, r = .ok p ∧ p.id = k.id ∧ p.serial = k.serial
+
+/-- `allocate` does not look at the creation except to stamp it on the result -/
+theorem alloc_congr (a b : Sh) (h : core a = core b) :
+    core (alloc a).2 = core (alloc b).2 ∧ ∀ p, (alloc a).1 = .ok p → SameKey (alloc b).1 p := by
+  rcases a with ⟨ai, as, ac, ap⟩
+  rcases b with ⟨bi, bs, bc, bp⟩
+  simp [core] at h
+  obtain ⟨rfl, rfl, rfl⟩ := h
+  unfold alloc SameKey
+  simp only [core]
+  constructor
+  · (repeat' split) <;> simp_all
+  · intro p
+    (repeat' split) <;> simp_all
+    all_goals (intro h; subst h; simp)
 
 structure AllocInv (a0 : Sh) (s : St) : Prop where
-  st : s.alloc = seqState a0 s.nalloc
+  st : core s.alloc = core (seqState a0 s.nalloc)
   ix : ∀ i, (s.callers i).pc ≠ .start → (s.callers i).ix < s.nalloc ∧
-        (seqAlloc a0 (s.callers i).ix = .ok (s.callers i).key ∨ (s.callers i).out = some .allocFail)
+        (SameKey (seqAlloc a0 (s.callers i).ix) (s.callers i).key ∨ (s.callers i).out = some .allocFail)
   inj : ∀ i j, (s.callers i).pc ≠ .start → (s.callers j).pc ≠ .start → (s.callers i).ix = (s.callers j).ix → i = j
-  procs : ∀ p, p ∈ s.procs → ∃ n, n < s.nalloc ∧ seqAlloc a0 n = .ok p ∧
+  procs : ∀ p, p ∈ s.procs → ∃ n, n < s.nalloc ∧ SameKey (seqAlloc a0 n) p ∧
         ∀ i, (s.callers i).pc ≠ .start → (s.callers i).ix ≠ n
 
 theorem alloc_init (a : Sh) (n : Nat) : AllocInv a (St.init a n) := by
@@ -258,17 +285,19 @@ theorem seqState_succ (a0 : Sh) (n : Nat) : seqState a0 (n + 1) = (alloc (seqSta
 theorem seqAlloc_def (a0 : Sh) (n : Nat) : seqAlloc a0 n = (alloc (seqState a0 n)).1 := rfl
 
 theorem alloc_step_st {a0 : Sh} {s s' : St} {e : Step} (h : AllocInv a0 s) (hs : step s e = some s') :
-    s'.alloc = seqState a0 s'.nalloc := by
+    core s'.alloc = core (seqState a0 s'.nalloc) := by
   obtain ⟨h1, h2, h3, h4⟩ := h
+  have hc := (alloc_congr s.alloc (seqState a0 s.nalloc) h1).1
   cases e <;> simp only [step] at hs <;> (repeat' split at hs) <;> (try cases hs) <;>
-    simp only [St.setCaller, removeKey_alloc, removeKey_nalloc, seqState_succ]
+    simp only [St.setCaller, removeKey_alloc, removeKey_nalloc, seqState_succ, core_setCreation]
   all_goals grind
 
 
 theorem alloc_step_ix {a0 : Sh} {s s' : St} {e : Step} (hd : DoneInv s) (h : AllocInv a0 s) (hs : step s e = some s') :
     ∀ i, (s'.callers i).pc ≠ .start → (s'.callers i).ix < s'.nalloc ∧
-        (seqAlloc a0 (s'.callers i).ix = .ok (s'.callers i).key ∨ (s'.callers i).out = some .allocFail) := by
+        (SameKey (seqAlloc a0 (s'.callers i).ix) (s'.callers i).key ∨ (s'.callers i).out = some .allocFail) := by
   obtain ⟨h1, h2, h3, h4⟩ := h
+  have hc := (alloc_congr s.alloc (seqState a0 s.nalloc) h1).2
   intro j
   cases e <;> simp only [step] at hs <;> (repeat' split at hs) <;> (try cases hs) <;>
     simp only [upd_apply, St.setCaller, ite_pc, ite_out, ite_ix, ite_key, removeKey_pc, removeKey_out, removeKey_ix,
@@ -285,11 +314,12 @@ theorem alloc_step_inj {a0 : Sh} {s s' : St} {e : Step} (h : AllocInv a0 s) (hs 
   all_goals (have := h3 i j; have := h2 i; have := h2 j; grind [Pc.suspended])
 
 theorem alloc_step_procs {a0 : Sh} {s s' : St} {e : Step} (h : AllocInv a0 s) (hs : step s e = some s') :
-    ∀ p, p ∈ s'.procs → ∃ n, n < s'.nalloc ∧ seqAlloc a0 n = .ok p ∧
+    ∀ p, p ∈ s'.procs → ∃ n, n < s'.nalloc ∧ SameKey (seqAlloc a0 n) p ∧
         ∀ i, (s'.callers i).pc ≠ .start → (s'.callers i).ix ≠ n := by
   obtain ⟨h1, h2, h3, h4⟩ := h
+  have hc := (alloc_congr s.alloc (seqState a0 s.nalloc) h1).2
   intro p hp
-  have key : ∀ q, q ∈ s.procs → ∃ n, n < s.nalloc + 1 ∧ seqAlloc a0 n = .ok q ∧
+  have key : ∀ q, q ∈ s.procs → ∃ n, n < s.nalloc + 1 ∧ SameKey (seqAlloc a0 n) q ∧
       ∀ i, (s.callers i).pc ≠ .start → (s.callers i).ix ≠ n := by
     intro q hq; obtain ⟨n, hn1, hn2, hn3⟩ := h4 q hq; exact ⟨n, by omega, hn2, hn3⟩
   cases e with
@@ -299,7 +329,7 @@ theorem alloc_step_procs {a0 : Sh} {s s' : St} {e : Step} (h : AllocInv a0 s) (h
     · rename_i q a' heq
       rcases List.mem_cons.mp hp with rfl | hp
       · refine ⟨s.nalloc, Nat.lt_succ_self _, ?_, ?_⟩
-        · rw [seqAlloc_def, ← h1, heq]
+        · rw [seqAlloc_def]; exact hc p (by rw [heq])
         · intro i hi; have := (h2 i hi).1; exact Nat.ne_of_lt this
       · exact key p hp
     · exact key p hp
@@ -357,18 +387,19 @@ theorem keys_distinct {a0 : Sh} {s : St} (h : AllocInv a0 s) (hb : s.nalloc ≤ 
     (hk : ((s.callers i).key.id, (s.callers i).key.serial) = ((s.callers j).key.id, (s.callers j).key.serial)) : i = j := by
   obtain ⟨li, hai⟩ := h.ix i hi
   obtain ⟨lj, haj⟩ := h.ix j hj
-  have hai : seqAlloc a0 (s.callers i).ix = .ok (s.callers i).key := by
+  obtain ⟨p, hp, hp1, hp2⟩ : SameKey (seqAlloc a0 (s.callers i).ix) (s.callers i).key := by
     rcases hai with h' | h'
     · exact h'
     · exact absurd h' hoi
-  have haj : seqAlloc a0 (s.callers j).ix = .ok (s.callers j).key := by
+  obtain ⟨q, hq, hq1, hq2⟩ : SameKey (seqAlloc a0 (s.callers j).ix) (s.callers j).key := by
     rcases haj with h' | h'
     · exact h'
     · exact absurd h' hoj
+  have hk' : (p.id, p.serial) = (q.id, q.serial) := by rw [hp1, hp2, hq1, hq2]; exact hk
   rcases Nat.lt_trichotomy (s.callers i).ix (s.callers j).ix with hlt | heq | hgt
-  · exact absurd hk (PidAlloc.seqAlloc_key_ne_any a0 _ _ hlt (by omega) _ _ hai haj)
+  · exact absurd hk' (PidAlloc.seqAlloc_key_ne_any a0 _ _ hlt (by omega) _ _ hp hq)
   · exact h.inj i j hi hj heq
-  · exact absurd hk.symm (PidAlloc.seqAlloc_key_ne_any a0 _ _ hgt (by omega) _ _ haj hai)
+  · exact absurd hk'.symm (PidAlloc.seqAlloc_key_ne_any a0 _ _ hgt (by omega) _ _ hq hp)
 
 /-- while the allocator has not gone round, the only call an entry under call `i`'s key can belong to is `i` -/
 theorem entry_owner {a0 : Sh} {s : St} (he : EntryInv s) (hd : DoneInv s) (ha : AllocInv a0 s)
